@@ -27,7 +27,7 @@ func (c19) Cases(t fw.Tier) int {
 }
 func (c19) Processes(t fw.Tier) int { return tierN(t, 2, 4) }
 func (c19) Rule() string {
-	return "each case builds a Schema tree with 0-8 properties per level over 3 levels (also below items / allOf / $defs / additionalProperties), each level with its own PropertyOrder: " +
+	return "each case builds a Schema tree with 0-8 properties per level (one level in ten: 12-257 properties) over 3 levels (also below items / allOf / $defs / additionalProperties), each level with its own PropertyOrder: " +
 		"a permutation, a subset, a superset with absent names, a long list of 17-40 entries over few properties, a prefix of one backing array shared between nodes (spare capacity behind it), nil, empty, or a list with duplicates; the Schema value is snapshotted around the Marshal calls and must not change; other fields are populated by the reflective generator. " +
 		"Marshal is called 8 times in-process (bytes must be identical) and the same cases are marshaled in a second/third/fourth process whose digests must agree (randomised map iteration, fresh hash seeds). " +
 		"The key order of every \"properties\" object is extracted at token level and compared with the rule computed from the Schema value: listed names that exist, in list order, then the remaining names ascending. Lists with duplicates must make Marshal fail. " +
@@ -60,11 +60,22 @@ func (g *orderGen) node(depth int) *jsonschema.Schema {
 	if depth >= 2 {
 		n = r.IntN(4)
 	}
+	pool := orderNames
+	if depth < 2 && r.IntN(10) == 0 {
+		// size stress: many properties (sort and set implementations switch algorithms at 12, 16, 32, 64 ... elements)
+		n = gen.Pick(r, gen.WideSizes)
+		pool = append([]string{}, orderNames...)
+		for i := 0; len(pool) < n; i++ {
+			pool = append(pool, fmt.Sprintf(gen.Pick(r, []string{"w%d", "W%d", "%d", "w%03d", "é%d"}), i))
+		}
+		pool = dedupNames(pool)
+		n = min(n, len(pool))
+	}
 	if n > 0 || r.IntN(3) == 0 {
 		s.Properties = map[string]*jsonschema.Schema{}
-		perm := r.Perm(len(orderNames))
+		perm := r.Perm(len(pool))
 		for i := 0; i < n; i++ {
-			name := orderNames[perm[i]]
+			name := pool[perm[i]]
 			if depth < 2 && r.IntN(3) == 0 {
 				s.Properties[name] = g.node(depth + 1)
 			} else {
@@ -156,6 +167,18 @@ func (g *orderGen) node(depth int) *jsonschema.Schema {
 	return s
 }
 
+func dedupNames(in []string) []string {
+	seen := map[string]bool{}
+	var out []string
+	for _, n := range in {
+		if !seen[n] {
+			seen[n] = true
+			out = append(out, n)
+		}
+	}
+	return out
+}
+
 // expectedOrder computes the documented key order of "properties" from the Schema value.
 func expectedOrder(s *jsonschema.Schema) []string {
 	var out []string
@@ -234,6 +257,9 @@ func checkOrder(s *jsonschema.Schema, j any, path string) string {
 }
 
 func (c19) Run(c *fw.Case) {
+	if c.Idx%6 == 5 {
+		failedCalls(c) // call history: failed calls before the case must leave nothing behind
+	}
 	g := &orderGen{c: c}
 	s := g.node(0)
 	if c.Idx%5 == 0 && !g.hasDup {
